@@ -96,6 +96,31 @@ func ruleP07Chunks(p *Prog, r *Report) {
 			}
 			return true
 		}
+		// `txt[pointer:min(next, len(txt))]` is both chunks in one statement: the regular one
+		// when next <= len(txt), the final one (to the end of the text) otherwise
+		if mc, isC := strip(sl.High).(*ssa.Call); isC {
+			if bi, isB := mc.Call.Value.(*ssa.Builtin); isB && bi.Name() == "min" && len(mc.Call.Args) == 2 {
+				isLen := func(v ssa.Value) bool {
+					c, _ := callOf(strip(v))
+					if c == nil {
+						return false
+					}
+					b, isB2 := c.Common().Value.(*ssa.Builtin)
+					return isB2 && b.Name() == "len" && strip(c.Common().Args[0]) == ssa.Value(txt)
+				}
+				var other ssa.Value
+				switch {
+				case isLen(mc.Call.Args[1]):
+					other = mc.Call.Args[0]
+				case isLen(mc.Call.Args[0]):
+					other = mc.Call.Args[1]
+				}
+				if other != nil {
+					n++ // counts as the final chunk as well
+					sl = &ssa.Slice{X: sl.X, Low: sl.Low, High: other}
+				}
+			}
+		}
 		if sl.High == nil {
 			// the final chunk: either the loop is left, or the pointer continues at len(txt)
 			// (every further chunk is then empty)
@@ -534,7 +559,7 @@ func ruleP17ErrAbort(p *Prog, r *Report) {
 			if e == nil || len(*e.Referrers()) == 0 {
 				return // P17-err decides discarded errors
 			}
-			if why, isEx := errAbortExceptions[fnName(outermost(f))]; isEx {
+			if why, isEx := inheritedException(errAbortExceptions, outermost(f), 3); isEx {
 				r.ok(rule, key, p.instrPos(c), "exception: %s", why)
 				return
 			}
@@ -567,6 +592,35 @@ func ruleP17ErrAbort(p *Prog, r *Report) {
 	if n < 4 {
 		r.undecided(rule, "floor", "-", "only %d checked time computations found", n)
 	}
+}
+
+// inheritedException looks a function up in an exception table; an unexported function all of
+// whose static call sites lie in excepted functions of the same package inherits the entry (a
+// private helper carved out of an excepted function is the same code).
+func inheritedException(table map[string]string, f *ssa.Function, depth int) (string, bool) {
+	if why, ok := table[fnName(f)]; ok {
+		return why, true
+	}
+	if depth == 0 || f.Object() == nil || f.Object().Exported() {
+		return "", false
+	}
+	sites := ht.sites[originFn(f)]
+	if len(sites) == 0 {
+		return "", false
+	}
+	why := ""
+	for _, s := range sites {
+		caller := outermost(s.Parent())
+		if caller == f || pkgPathOfFn(caller) != pkgPathOfFn(f) {
+			return "", false
+		}
+		w, ok := inheritedException(table, caller, depth-1)
+		if !ok {
+			return "", false
+		}
+		why = w
+	}
+	return why, true
 }
 
 func outermost(f *ssa.Function) *ssa.Function {
@@ -733,14 +787,51 @@ func ruleP01Delims(p *Prog, r *Report) {
 		set  string
 		okay bool
 	}
+	// the sites in the order in which parse comes to them: source order within a function, a
+	// closure or a helper taken at the place where it is created / called (a block of parse that
+	// moved into a function further down in the file keeps its place in the sequence)
 	var sites []site
-	for _, f := range withAnons(parse) {
-		for _, c := range callsTo(f, peek) {
-			s, ok := setOf(c.Common().Args[len(c.Common().Args)-1])
-			sites = append(sites, site{c.Pos(), c, s, ok})
+	visited := map[*ssa.Function]bool{}
+	var walk func(f *ssa.Function, depth int)
+	walk = func(f *ssa.Function, depth int) {
+		if f == nil || visited[f] || depth > 6 || len(f.Blocks) == 0 {
+			return
+		}
+		visited[f] = true
+		type item struct {
+			pos token.Pos
+			st  *site
+			sub *ssa.Function
+		}
+		var items []item
+		eachInstr(f, func(in ssa.Instruction) {
+			switch x := in.(type) {
+			case *ssa.MakeClosure:
+				if fn, ok := x.Fn.(*ssa.Function); ok {
+					items = append(items, item{pos: x.Pos(), sub: fn})
+				}
+			case ssa.CallInstruction:
+				if sameFn(staticCallee(x), peek) {
+					s, ok := setOf(x.Common().Args[len(x.Common().Args)-1])
+					if ok && s == "{}" {
+						return // "to the end of the line" (also spelled Remainder()): P09-rest-of-line
+					}
+					items = append(items, item{pos: x.Pos(), st: &site{x.Pos(), x, s, ok}})
+				} else if g := rawStaticCallee(x); g != nil && isHelper(g) && pkgPathOfFn(g) == pkgPathOfFn(parse) {
+					items = append(items, item{pos: x.Pos(), sub: originFn(g)})
+				}
+			}
+		})
+		sort.SliceStable(items, func(i, j int) bool { return items[i].pos < items[j].pos })
+		for _, it := range items {
+			if it.st != nil {
+				sites = append(sites, *it.st)
+			} else {
+				walk(it.sub, depth+1)
+			}
 		}
 	}
-	sort.Slice(sites, func(i, j int) bool { return sites[i].pos < sites[j].pos })
+	walk(parse, 0)
 	want := []struct{ what, set string }{
 		{"date", `{' ','\t'}`},
 		{"properties", `{')'}`},
@@ -750,7 +841,15 @@ func ruleP01Delims(p *Prog, r *Report) {
 		{"first token (error extent)", `{' ','\t'}`},
 		{"placeholder", `{' ','\t'}`},
 		{"end-time candidate", `{' ','\t'}`},
-		{"rest of summary line", `{}`},
+	}
+	if len(sites) == len(want)-1 {
+		// the token that only measures the extent of an error may be the duration candidate reused
+		for i := range want {
+			if want[i].what == "first token (error extent)" {
+				want = append(want[:i:i], want[i+1:]...)
+				break
+			}
+		}
 	}
 	if len(sites) != len(want) {
 		r.undecided(rule, "sites", p.pos(parse.Pos()), "parse cuts tokens at %d PeekUntil sites, the confirmed table has %d; re-confirm the table", len(sites), len(want))
